@@ -294,7 +294,9 @@ pub fn gen_c07(r: &mut Rng, id: u64, thorough: bool) -> Value {
         if open.is_empty() || choice == 0 || choice == 1 {
             // open a session on some profile name (existing or not)
             let p = r.pick(&pnames).to_string();
-            ops.push(json!({"op": "session", "s": next_sid, "profile": p, "txn": false}));
+            // the handle's own active profile ("default") is addressed by name or, every other time, as None
+            let by_none = p == "default" && r.chance(1, 2);
+            ops.push(json!({"op": "session", "s": next_sid, "profile": if by_none { Value::Null } else { json!(p) }, "txn": false}));
             ops.push(json!({"op": "ping", "s": next_sid}));
             if exists.contains(&p) {
                 open.push((next_sid, p));
@@ -315,12 +317,13 @@ pub fn gen_c07(r: &mut Rng, id: u64, thorough: bool) -> Value {
         let (k, c, n) = ident(r, false);
         let op = match choice {
             2 => {
-                let p = r.pick(&pnames[1..]).to_string();
+                // the active profile itself can be removed and re-created like any other
+                let p = r.pick(&pnames).to_string();
                 if !exists.contains(&p) { exists.push(p.clone()); }
                 json!({"op": "create_profile", "name": p})
             }
             3 => {
-                let p = r.pick(&pnames[1..]).to_string();
+                let p = r.pick(&pnames).to_string();
                 // sessions of a removed profile are closed first (the property does not say what they do afterwards)
                 let (gone, keep): (Vec<_>, Vec<_>) = open.iter().cloned().partition(|(_, q)| *q == p);
                 for (s, _) in gone { ops.push(json!({"op": "drop", "s": s})); }
